@@ -1197,7 +1197,7 @@ public:
     /// given character sequence. The search considers only the interval [0,
     /// pos]. If the character is not present in the interval, npos will be
     /// returned.
-    [[nodiscard]] constexpr auto find_last_not_of(basic_inplace_string const& str, size_type pos = 0) const noexcept
+    [[nodiscard]] constexpr auto find_last_not_of(basic_inplace_string const& str, size_type pos = npos) const noexcept
         -> size_type
     {
         return basic_string_view<Char, Traits>{*this}.find_last_not_of(str, pos);
@@ -1207,7 +1207,7 @@ public:
     /// given character sequence. The search considers only the interval [0,
     /// pos]. If the character is not present in the interval, npos will be
     /// returned.
-    [[nodiscard]] constexpr auto find_last_not_of(Char c, size_type pos = 0) const noexcept -> size_type
+    [[nodiscard]] constexpr auto find_last_not_of(Char c, size_type pos = npos) const noexcept -> size_type
     {
         return basic_string_view<Char, Traits>{*this}.find_last_not_of(c, pos);
     }
@@ -1225,7 +1225,7 @@ public:
     /// given character sequence. The search considers only the interval [0,
     /// pos]. If the character is not present in the interval, npos will be
     /// returned.
-    [[nodiscard]] constexpr auto find_last_not_of(Char const* s, size_type pos = 0) const -> size_type
+    [[nodiscard]] constexpr auto find_last_not_of(Char const* s, size_type pos = npos) const -> size_type
     {
         return basic_string_view<Char, Traits>{*this}.find_last_not_of(s, pos);
     }
